@@ -65,15 +65,32 @@ from financepy.products.fx.fx_vanilla_option import FXVanillaOption  # noqa: E40
 from financepy.products.credit.cds import CDS  # noqa: E402
 from financepy.products.credit.cds_curve import CDSCurve  # noqa: E402
 from financepy.models.heston import Heston  # noqa: E402
+from financepy.models.black_shifted import BlackShifted  # noqa: E402
+from financepy.models.bachelier import Bachelier  # noqa: E402
+from financepy.models.sabr import SABR  # noqa: E402
+from financepy.models.sabr_shifted import SABRShifted  # noqa: E402
+from financepy.products.bonds.bond_option import BondOption  # noqa: E402
+from financepy.products.fx.fx_forward import FXForward  # noqa: E402
+from financepy.products.fx.fx_barrier_option import FXBarrierOption, FinFXBarrierTypes  # noqa: E402
+from financepy.products.fx.fx_digital_option import FXDigitalOption  # noqa: E402
+from financepy.products.fx.fx_one_touch_option import FXOneTouchOption  # noqa: E402
+from financepy.products.equity.equity_compound_option import EquityCompoundOption  # noqa: E402
+from financepy.products.equity.equity_barrier_option import EquityBarrierOption  # noqa: E402
+from financepy.products.equity.equity_digital_option import EquityDigitalOption, FinDigitalOptionTypes  # noqa: E402
+from financepy.products.equity.equity_one_touch_option import EquityOneTouchOption  # noqa: E402
+from financepy.products.equity.equity_chooser_option import EquityChooserOption  # noqa: E402
+from financepy.utils.global_types import EquityBarrierTypes, TouchOptionTypes  # noqa: E402
 
 CLS = {c.__name__: c for c in (
     Date, Calendar, Schedule, BlackScholes, Black, HWTree, BKTree, BDTTree, DiscountCurveFlat, DiscountCurve, Bond,
     BondEmbeddedOption, SwapFixedLeg, SwapFloatLeg, IborSwap, IborDeposit, IborFRA, IborSwaption, IborCapFloor,
-    IborSingleCurve, EquityVanillaOption, EquityAmericanOption, FXVanillaOption, CDS, CDSCurve, Heston)}
+    IborSingleCurve, EquityVanillaOption, EquityAmericanOption, FXVanillaOption, CDS, CDSCurve, Heston,
+    BlackShifted, Bachelier, SABR, SABRShifted, BondOption, FXForward, FXBarrierOption, FXDigitalOption, FXOneTouchOption,
+    EquityCompoundOption, EquityBarrierOption, EquityDigitalOption, EquityOneTouchOption, EquityChooserOption)}
 ENUMS = {e.__name__: e for e in (
     DateFormatTypes, CalendarTypes, BusDayAdjustTypes, DateGenRuleTypes, FrequencyTypes, DayCountTypes, SwapTypes,
     OptionTypes, FinCapFloorTypes, FinExerciseTypes, BlackScholesTypes, BlackTypes, FinHWEuropeanCalcType, InterpTypes,
-    YTMCalcType)}
+    YTMCalcType, FinFXBarrierTypes, FinDigitalOptionTypes, EquityBarrierTypes, TouchOptionTypes)}
 DEFAULT_FMT = DateFormatTypes.UK_LONG
 
 
